@@ -251,6 +251,11 @@ def generate(tier, rng):
         for name, b in chains(d):
             cuts = {1, 2, len(b) // 2, len(b) // 2 + 1, len(b) - 2, len(b) - 1, d, d + 1, 2 * d, len(b) - d} if d > 3 else True
             emit(out, b, prefixes=cuts if cuts is True else sorted(cuts))
+    # the width boundary of a 16-bit counter of open indefinite containers (skip counts them in a u64): 2^16 - 1, 2^16, 2^16 + 1 levels
+    for d in (65535, 65536, 65537):
+        for name, b in chains(d):
+            if name in ("indef-array", "indef-map", "switch-at-depth-indef"):
+                emit(out, b, suffixes=(b"", b"\x01"), prefixes=(len(b) - 1,))
     for n in [23, 24, 255, 256, 1000] + ([10000, 65536] if big else []):
         for name, b in flat(n):
             emit(out, b, prefixes=(1, len(b) // 2, len(b) - 1))
